@@ -447,7 +447,7 @@ func firstCallScenario(k int) (steps []string, bad string) {
 		// library work between registry calls: frame encodes and decodes look services up, and whatever they
 		// find (nothing, a built-in, an application service of the expected or of ANOTHER result type - the
 		// registry accepts any value with Algorithm()) they must leave the registry as it is
-		{{"LibOps", "", 0}, {"Get", "CRC16", 0}, {"Get", "CRC32", 0}, {"Get", "SSE_BIN", 0}, {"Get", "SZSE_BIN", 0}},
+		{{"LibOps", "", 0}, {"RegistryNameless", "", 0}, {"Get", "CRC16", 0}, {"Get", "CRC32", 0}, {"Get", "SSE_BIN", 0}, {"Get", "SZSE_BIN", 0}, {"Get", "", 0}},
 		{{"Remove", "SZSE_BIN", 0}, {"Registry", "SZSE_BIN", 1}, {"LibOps", "", 0}, {"Get", "SZSE_BIN", 0}, {"Registry", "SZSE_BIN", 2}, {"Get", "SZSE_BIN", 0}, {"Get", "CRC32", 0}},
 		{{"Clear", "", 0}, {"Registry", "SSE_BIN", 2}, {"Registry", "CRC32", 2}, {"Registry", "SZSE_BIN", 0}, {"LibOps", "", 0}, {"Get", "SSE_BIN", 0}, {"Get", "CRC32", 0}, {"Get", "SZSE_BIN", 0}, {"Get", "CRC16", 0}},
 		{{"Remove", "SSE_BIN", 0}, {"Remove", "CRC32", 0}, {"LibOps", "", 0}, {"Get", "SSE_BIN", 0}, {"Get", "CRC32", 0}, {"Clear", "", 0}, {"LibOps", "", 0}, {"Get", "SZSE_BIN", 0}, {"Get", "CRC16", 0}},
@@ -494,6 +494,10 @@ func firstCallScenario(k int) (steps []string, bad string) {
 				}
 			}
 			got, want = fmt.Sprint(id), fmt.Sprint(model[o.name])
+		case "RegistryNameless":
+			// a value without Algorithm() has no name to be stored under: a successful registration nobody can
+			// ever look up is not explainable by a sequential map
+			got, want = fmt.Sprint(codec.Registry(struct{ X int }{7})), "false"
 		case "LibOps":
 			got = libOps()
 			want = got
